@@ -1,12 +1,129 @@
-"""Kani leaf harnesses (filled in later): loop-free harnesses over kani::any()
-for scalar/slice leaf functions; concrete counterexamples + native replay."""
-from .core import Undecided
+"""Kani leaf harnesses (src/verif_hooks.rs in /repo, cfg(kani)): loop-free, full-domain statements of
+leaf-function contracts.  Used (a) as the deciding check for bit-level encodings that Verus cannot
+express (to_be_bytes), (b) to obtain concrete counterexamples for scalar obligations, which are then
+replayed natively against the real compiled function (`cargo test --features verif verif_replay`)."""
+import json, os, re, subprocess, time, hashlib
+from .core import Undecided, VERIF, REPO
+
+TARGET = os.path.join(VERIF, ".cache", "kani-target")
+MODPATH = "verif_hooks::kani_harnesses::"
+
+# harness -> how to decode its kani::any() values, in call order (name, width in bytes)
+LAYOUT = {
+    "fee_sufficient_no_panic": [("base", 4), ("ppm", 4), ("delta", 2), ("total", 8), ("amount", 8)],
+    "fee_sufficient_exact_outside_mul_overflow_region": [("base", 4), ("ppm", 4), ("total", 8), ("amount", 8)],
+    "fee_sufficient_exact_inside_mul_overflow_region": [("base", 4), ("ppm", 4), ("total", 8), ("amount", 8)],
+}
+REPLAY_TARGET = {
+    "fee_sufficient_no_panic": "fee_sufficient",
+    "fee_sufficient_exact_outside_mul_overflow_region": "fee_sufficient",
+    "fee_sufficient_exact_inside_mul_overflow_region": "fee_sufficient",
+}
 
 
-def run_harnesses(prop, harnesses, tier):
-    return []
+def _cargo_kani(harnesses, extra=(), timeout=900):
+    env = dict(os.environ, CARGO_NET_OFFLINE="true")
+    cmd = ["cargo", "kani", "--target-dir", TARGET]
+    for h in harnesses:
+        cmd += ["--harness", h]
+    cmd += list(extra)
+    t0 = time.time()
+    try:
+        p = subprocess.run(["timeout", "-k", "5", str(timeout)] + cmd, cwd=REPO, capture_output=True, text=True, env=env)
+        out = p.stdout + "\n" + p.stderr
+        if p.returncode in (124, 137):
+            out += "\nKANI-TIMEOUT"
+    finally:
+        subprocess.run("pkill -f '[c]bmc --no-malloc-may' 2>/dev/null", shell=True)
+    return cmd, out, time.time() - t0
+
+
+def _split(out):
+    blocks = {}
+    cur = None
+    for line in out.split("\n"):
+        m = re.match(r"Checking harness (\S+?)\.\.\.", line)
+        if m:
+            cur = m.group(1).split("::")[-1]
+            blocks[cur] = []
+        elif cur:
+            blocks[cur].append(line)
+    return {k: "\n".join(v) for k, v in blocks.items()}
+
+
+def _concrete(harness, text):
+    """Decode `concrete_vals` of Kani's concrete playback into named inputs."""
+    lay = LAYOUT.get(harness)
+    if not lay:
+        return None
+    vals = re.findall(r"vec!\[([0-9,\s]*)\]", text)
+    # first match is the outer vec in some versions; keep only byte lists of plausible width
+    lists = []
+    for v in vals:
+        nums = [int(x) for x in v.replace("\n", " ").split(",") if x.strip()]
+        if nums and all(0 <= n <= 255 for n in nums) and len(nums) in (1, 2, 4, 8, 16):
+            lists.append(nums)
+    if len(lists) < len(lay):
+        return None
+    out = {}
+    for (name, width), bs in zip(lay, lists):
+        if len(bs) != width:
+            return None
+        out[name] = str(int.from_bytes(bytes(bs), "little"))
+    return out
+
+
+def run_harnesses(prop, harnesses, tier, failing=()):
+    """harnesses: list of dict(harness, obligation, fn, role, tier, when_fails, timeout).
+    role "deciding": must be proved (else undecided / violation);
+    role "witness": only produces a concrete counterexample; a timeout is recorded, not an error."""
+    if not os.path.exists(os.path.join(REPO, "Cargo.toml")):
+        # scratch source trees (self-test mutants) carry no Cargo project: Kani part is skipped
+        return []
+    res = []
+    for h in harnesses:
+        role = h.get("role", "deciding")
+        wanted = (h.get("tier", "quick") == "quick") or tier == "thorough"
+        if h.get("when_fails"):
+            wanted = any(f == h["when_fails"] for f in failing)
+        if not wanted:
+            continue
+        cmd, out, wall = _cargo_kani([h["harness"]], timeout=h.get("timeout", 600))
+        b = _split(out).get(h["harness"])
+        r = {"harness": h["harness"], "obligation": h["obligation"], "fn": h.get("fn"), "role": role,
+             "cmd": " ".join(cmd).replace(VERIF + "/", ""), "wall_s": round(wall, 1), "backend": "Kani 0.68 / CBMC 6.11"}
+        if "KANI-TIMEOUT" in out:
+            r.update(status="timeout" if role == "witness" else "undecided", summary=f"no verdict within {h.get('timeout', 600)} s", output="")
+        elif b is None:
+            r.update(status="undecided", summary="harness not found in Kani output (build error?)", output=out[-2000:])
+        elif "VERIFICATION:- SUCCESSFUL" in b:
+            m = re.search(r"\*\* (\d+) of (\d+) failed", b)
+            r.update(status="proved", summary=f"{m.group(2) if m else '?'} checks, 0 failed (loop-free harness over the full input domain: complete)", output="")
+            r["checks"] = int(m.group(2)) if m else 0
+        elif "VERIFICATION:- FAILED" in b:
+            failed = re.findall(r"Failed Checks: (.*)", b)
+            r.update(status="failed", summary="; ".join(failed[:3]) or "verification failed", output=b[-3000:])
+            cmd2, out2, _ = _cargo_kani([h["harness"]], ["-Z", "concrete-playback", "--concrete-playback=print"], timeout=h.get("timeout", 600))
+            inp = _concrete(h["harness"], out2)
+            if inp:
+                r["inputs"] = inp
+                r["replay_target"] = REPLAY_TARGET.get(h["harness"])
+            r["output"] += "\n--- concrete playback ---\n" + out2[-2500:]
+        else:
+            r.update(status="undecided", summary="no verdict (out of memory / build error)", output=(b or out)[-2000:])
+        res.append(r)
+    return res
 
 
 def replay_native(d):
-    print("native replay not available")
-    return 1
+    """Re-run a recorded counterexample against the real compiled function."""
+    path = os.path.join(VERIF, "replays", "native-" + hashlib.sha1(json.dumps(d.get("inputs"), sort_keys=True).encode()).hexdigest()[:8] + ".json")
+    json.dump({"target": d.get("replay_target") or "fee_sufficient", "inputs": d["inputs"]}, open(path, "w"))
+    env = dict(os.environ, VERIF_REPLAY=path, CARGO_NET_OFFLINE="true")
+    p = subprocess.run(["cargo", "test", "--offline", "--features", "verif", "verif_replay", "--", "--nocapture"],
+                       cwd=REPO, capture_output=True, text=True, env=env)
+    lines = [l for l in (p.stdout + p.stderr).split("\n") if l.startswith("REPLAY") or "test result" in l or "panicked at" in l]
+    print("\n".join(lines))
+    reproduced = "test result: FAILED" in p.stdout
+    print("violation reproduced on the real code" if reproduced else "the real code agrees with the reference on this input")
+    return 1 if reproduced else 0
